@@ -86,3 +86,57 @@ Definition neg_batch := mkbatch KStd 220 ex_odfi 1
 Lemma hash_negative_summand :
   validate_batch T neg_batch = ROk /\ gen_hash (bt_entries neg_batch) = -1234567.
 Proof. vm_compute. split; reflexivity. Qed.
+
+(* ---- end to end: file control of a READ and validated file in terms of the ENTRIES ---- *)
+(* Composition of c03_read_validate, c03_file_arith / c03_file_arith_adv and
+   c03_batch_arith_general: the file control of a file that was read and validated equals
+   sums over the entries of every batch of every kind, not only over batch controls. *)
+Definition file_entries_spec (f : file) (bs : list batch) : Prop :=
+  fc_count (fl_ctl f) = sumz (fun b => spec_count (bt_entries b)) bs /\
+  fc_debit (fl_ctl f) = sumz (fun b => gen_debit (bt_kind b) (bt_entries b)) bs /\
+  fc_credit (fl_ctl f) = sumz (fun b => gen_credit (bt_kind b) (bt_entries b)) bs /\
+  fc_hash (fl_ctl f) = Z.rem (sumz (fun b => gen_hash (bt_entries b)) bs) (10 ^ 10).
+
+Lemma file_sums_entries f bs : file_sums_spec f bs -> Forall (fun b => validate_batch T b = ROk) bs ->
+  file_entries_spec f bs.
+Proof.
+  intros (Hc & Hd & Hcr & Hh) Hall. unfold file_entries_spec.
+  assert (Hg : Forall (fun b =>
+      bc_count (bt_ctl b) = spec_count (bt_entries b) /\
+      bc_debit (bt_ctl b) = gen_debit (bt_kind b) (bt_entries b) /\
+      bc_credit (bt_ctl b) = gen_credit (bt_kind b) (bt_entries b) /\
+      bc_hash (bt_ctl b) = gen_hash (bt_entries b)) bs).
+  { eapply Forall_impl; [|exact Hall]. intros b Hb.
+    destruct (c03_batch_arith_general b Hb) as (H1 & H2 & H3 & _ & _ & _ & H7 & _). auto. }
+  rewrite Hc, Hd, Hcr, Hh.
+  assert (E1 : sumz (fun b => bc_count (bt_ctl b)) bs = sumz (fun b => spec_count (bt_entries b)) bs).
+  { apply sumz_ext. eapply Forall_impl; [|exact Hg]. intros b (H1 & _). exact H1. }
+  assert (E2 : sumz (fun b => bc_debit (bt_ctl b)) bs = sumz (fun b => gen_debit (bt_kind b) (bt_entries b)) bs).
+  { apply sumz_ext. eapply Forall_impl; [|exact Hg]. intros b (_ & H2 & _). exact H2. }
+  assert (E3 : sumz (fun b => bc_credit (bt_ctl b)) bs = sumz (fun b => gen_credit (bt_kind b) (bt_entries b)) bs).
+  { apply sumz_ext. eapply Forall_impl; [|exact Hg]. intros b (_ & _ & H3 & _). exact H3. }
+  assert (E4 : sumz (fun b => bc_hash (bt_ctl b)) bs = sumz (fun b => gen_hash (bt_entries b)) bs).
+  { apply sumz_ext. eapply Forall_impl; [|exact Hg]. intros b (_ & _ & _ & H4). exact H4. }
+  rewrite E1, E2, E3, E4. repeat split; reflexivity.
+Qed.
+
+Lemma c03_read_validate_entries f : read_validate T f = ROk -> is_adv_file f = false ->
+  file_entries_spec f (all_batches f).
+Proof.
+  intros Hr Hadv. destruct (c03_read_validate f Hr) as (Hall & Hv).
+  destruct (c03_file_arith f Hv Hadv) as (_ & Hs & _ & _).
+  apply file_sums_entries; assumption.
+Qed.
+
+Lemma c03_read_validate_entries_adv f : read_validate T f = ROk -> is_adv_file f = true ->
+  file_entries_spec f (fl_batches f).
+Proof.
+  intros Hr Hadv. destruct (c03_read_validate f Hr) as (Hall & Hv).
+  destruct (c03_file_arith_adv f Hv Hadv) as (_ & Hs).
+  apply file_sums_entries; [exact Hs|].
+  unfold all_batches in Hall. apply Forall_app in Hall. exact (proj1 Hall).
+Qed.
+
+Lemma read_validate_entries_example :
+  read_validate T ex_file = ROk /\ is_adv_file ex_file = false /\ all_batches ex_file <> [].
+Proof. vm_compute. repeat split; try reflexivity. discriminate. Qed.
